@@ -5,11 +5,14 @@
 
 use std::time::Duration;
 
+use futures::channel::oneshot;
 use libp2p_core::Multiaddr;
 use libp2p_identity::PeerId;
+use libp2p_request_response::verif_c45 as rr_hook;
+use libp2p_swarm::{ConnectionId, THandlerOutEvent};
 use web_time::Instant;
 
-use super::{super::Behaviour, AsServer, DialRequest, ResponseError};
+use super::{super::Behaviour, AsServer, AutoNatCodec, DialRequest, DialResponse, ResponseError};
 
 /// `AsServer::filter_valid_addrs`.
 pub fn filter_valid_addrs(
@@ -56,4 +59,68 @@ pub fn resolve_inbound_request(
 /// Number of entries in `ongoing_inbound` / `throttled_clients` (read-only).
 pub fn server_state_sizes(b: &Behaviour) -> (usize, usize) {
     (b.ongoing_inbound.len(), b.throttled_clients.len())
+}
+
+/// The observed address stored for one connection (`None` = peer or connection unknown).
+pub fn observed_entry(
+    b: &Behaviour,
+    peer: &PeerId,
+    conn: &ConnectionId,
+) -> Option<Option<Multiaddr>> {
+    b.connected.get(peer).and_then(|c| c.get(conn)).cloned()
+}
+
+/// Key set of `ongoing_inbound` (unordered).
+pub fn ongoing_keys(b: &Behaviour) -> Vec<PeerId> {
+    b.ongoing_inbound.keys().copied().collect()
+}
+
+/// Peers of `throttled_clients`, in vector order.
+pub fn throttled_peers(b: &Behaviour) -> Vec<PeerId> {
+    b.throttled_clients.iter().map(|(p, _)| *p).collect()
+}
+
+/// Receiving half of the response channel of an injected inbound request (the real handler keeps
+/// it inside the stream task and writes the response to the stream).
+pub struct PendingResponse(oneshot::Receiver<DialResponse>);
+
+/// What the server did with the response channel so far.
+pub enum ResponseState {
+    Pending,
+    /// The channel was dropped without a response.
+    Dropped,
+    Sent(Result<Multiaddr, ResponseError>, Option<String>),
+}
+
+impl PendingResponse {
+    pub fn state(&mut self) -> ResponseState {
+        match self.0.try_recv() {
+            Ok(None) => ResponseState::Pending,
+            Err(oneshot::Canceled) => ResponseState::Dropped,
+            Ok(Some(r)) => ResponseState::Sent(r.result, r.status_text),
+        }
+    }
+}
+
+/// The handler event of an inbound AutoNAT dial request with the given request id
+/// (to be passed to `NetworkBehaviour::on_connection_handler_event`).
+pub fn handler_request(
+    id: u64,
+    peer_id: PeerId,
+    addresses: Vec<Multiaddr>,
+) -> (THandlerOutEvent<Behaviour>, PendingResponse) {
+    let (ev, rx) = rr_hook::ev_request::<AutoNatCodec>(id, DialRequest { peer_id, addresses });
+    (ev, PendingResponse(rx))
+}
+
+pub fn handler_inbound_timeout(id: u64) -> THandlerOutEvent<Behaviour> {
+    rr_hook::ev_inbound_timeout::<AutoNatCodec>(id)
+}
+
+pub fn handler_inbound_stream_failed(id: u64) -> THandlerOutEvent<Behaviour> {
+    rr_hook::ev_inbound_stream_failed::<AutoNatCodec>(id, std::io::ErrorKind::BrokenPipe.into())
+}
+
+pub fn handler_response_sent(id: u64) -> THandlerOutEvent<Behaviour> {
+    rr_hook::ev_response_sent::<AutoNatCodec>(id)
 }
